@@ -965,6 +965,12 @@ func runC07HeaderOrder(c *Ctx) {
 				break
 			}
 			isNil := res[0].String() == "nil"
+			if !isNil {
+				// the error of the last step performed, handed back as it is
+				if a, ok := it.answer("("+res[0].String()+"==nil)", true); ok && a.kind == 1 {
+					isNil = a.b
+				}
+			}
 			if failed == isNil {
 				problem = fmt.Sprintf("flags ext=%v size=%v bbox=%v: step %d failed=%v but parseHeaders returns %s", hasExt, hasSize, hasBBox, failAt, failed, res[0].String())
 			}
@@ -1972,4 +1978,146 @@ func runC20MemBreak(c *Ctx) {
 	if n < 10 {
 		c.Errorf("only %d accumulating member loops found, expected >= 10", n)
 	}
+}
+
+// ---------------------------------------------------------------------------
+// C03.seglines: the segment bookkeeping of LineString.IsSimple
+// ---------------------------------------------------------------------------
+
+func init() {
+	register(&Rule{
+		ID:    "C03.seglines",
+		Props: []string{"C03"},
+		Doc:   "the segment bookkeeping that LineString.IsSimple (and through it ring validity) relies on, interpreted on every sequence of up to 5 control points over 3 distinct locations (repeated points at every position): getLine(i) is the pair (point i-1, point i), usable iff i >= 1 and they differ; firstAndLastLines gives the first and last index i with point i != point i-1 (and false when all points coincide); previousLine / nextLine(i) give the nearest usable segment before / after segment i (and false when there is none)",
+		Floor: 4,
+		Run:   runC03SegLines,
+	})
+}
+
+func runC03SegLines(c *Ctx) {
+	fGet := c.P.Func("geom.getLine")
+	fFL := c.P.Func("geom.firstAndLastLines")
+	fPrev := c.P.Func("geom.previousLine")
+	fNext := c.P.Func("geom.nextLine")
+	if fGet == nil || fFL == nil || fPrev == nil || fNext == nil {
+		c.Errorf("anchors getLine / firstAndLastLines / previousLine / nextLine do not resolve")
+		return
+	}
+	inl := func(g *ssa.Function) bool {
+		switch FuncName(g) {
+		case "geom.(Sequence).Length", "geom.(Sequence).GetXY", "geom.(Sequence).Get", "geom.(CoordinatesType).Dimension", "geom.getLine":
+			return true
+		}
+		return false
+	}
+	type res struct{ problem, undec string }
+	out := map[*ssa.Function]*res{fGet: {}, fFL: {}, fPrev: {}, fNext: {}}
+	models := 0
+	mk := func(pts []int) *k4interp {
+		m := &Model{Num: map[string]float64{"$0.ctype": 0}, Bool: map[string]bool{}, Missing: map[string]bool{}}
+		it := &k4interp{p: c.P, m: m, mem: map[string]k4val{}, inline: inl}
+		it.mem["$0.floats"] = k4val{kind: 8, s: "F", ln: 2 * len(pts), cp: 2 * len(pts)}
+		for i, p := range pts {
+			it.mem[fmt.Sprintf("F[%d]", 2*i)] = k4val{kind: 2, f: float64(p)}
+			it.mem[fmt.Sprintf("F[%d]", 2*i+1)] = k4val{kind: 2, f: float64(10 * p)}
+		}
+		return it
+	}
+	var rec func(pts []int, n int)
+	rec = func(pts []int, n int) {
+		if len(pts) == n {
+			models++
+			usable := func(i int) bool { return i >= 1 && i < n && pts[i-1] != pts[i] }
+			// getLine
+			for i := 0; i < n && out[fGet].problem == "" && out[fGet].undec == ""; i++ {
+				it := mk(pts)
+				r, err := it.call(fGet, []k4val{{kind: 3, s: "$0"}, {kind: 2, f: float64(i)}}, nil)
+				if err != nil || len(r) != 2 || r[1].kind != 1 {
+					out[fGet].undec = fmt.Sprintf("%v %v", err, r)
+					break
+				}
+				ax, e1 := it.lookup(r[0].s+".a.X", f64T)
+				bx, e2 := it.lookup(r[0].s+".b.X", f64T)
+				if e1 != nil || e2 != nil {
+					out[fGet].undec = "cannot read the line returned"
+					break
+				}
+				if i == 0 {
+					if r[1].b {
+						out[fGet].problem = fmt.Sprintf("points %v: getLine(0) is reported usable; segment i joins point i-1 to point i, so there is no segment 0", pts)
+					}
+					continue
+				}
+				if r[1].b != usable(i) || ax.f != float64(pts[i-1]) || bx.f != float64(pts[i]) {
+					out[fGet].problem = fmt.Sprintf("points %v: getLine(%d) = (%v -> %v, usable=%v), expected (%d -> %d, usable=%v)", pts, i, ax.f, bx.f, r[1].b, pts[i-1], pts[i], usable(i))
+				}
+			}
+			// firstAndLastLines
+			if out[fFL].problem == "" && out[fFL].undec == "" {
+				it := mk(pts)
+				r, err := it.call(fFL, []k4val{{kind: 3, s: "$0"}}, nil)
+				if err != nil || len(r) != 3 || r[2].kind != 1 {
+					out[fFL].undec = fmt.Sprintf("%v %v", err, r)
+				} else {
+					first, last := -1, -1
+					for i := 1; i < n; i++ {
+						if pts[i] != pts[i-1] {
+							if first < 0 {
+								first = i
+							}
+							last = i
+						}
+					}
+					wantOK := first >= 0
+					if r[2].b != wantOK || (wantOK && (int(r[0].f) != first || int(r[1].f) != last)) {
+						out[fFL].problem = fmt.Sprintf("points %v: firstAndLastLines = (%v, %v, %v), expected (%d, %d, %v)", pts, r[0].f, r[1].f, r[2].b, first, last, wantOK)
+					}
+				}
+			}
+			// previousLine / nextLine
+			for i := 0; i < n; i++ {
+				for _, f := range []*ssa.Function{fPrev, fNext} {
+					if out[f].problem != "" || out[f].undec != "" {
+						continue
+					}
+					it := mk(pts)
+					r, err := it.call(f, []k4val{{kind: 3, s: "$0"}, {kind: 2, f: float64(i)}}, nil)
+					if err != nil || len(r) != 2 || r[1].kind != 1 {
+						out[f].undec = fmt.Sprintf("%v %v", err, r)
+						continue
+					}
+					want := -1
+					if f == fPrev {
+						for j := i - 1; j >= 0; j-- {
+							if usable(j) {
+								want = j
+								break
+							}
+						}
+					} else {
+						for j := i + 1; j < n; j++ {
+							if usable(j) {
+								want = j
+								break
+							}
+						}
+					}
+					if r[1].b != (want >= 0) || (want >= 0 && int(r[0].f) != want) {
+						out[f].problem = fmt.Sprintf("points %v: %s(%d) = (%v, %v), expected (%d, %v)", pts, f.Name(), i, r[0].f, r[1].b, want, want >= 0)
+					}
+				}
+			}
+			return
+		}
+		for p := 0; p < 3; p++ {
+			rec(append(pts, p), n)
+		}
+	}
+	for n := 0; n <= 5; n++ {
+		rec(nil, n)
+	}
+	reportK4(c, fGet, "segment i = (point i-1, point i), usable iff distinct", out[fGet].undec, out[fGet].problem, fmt.Sprintf("on all %d sequences", models))
+	reportK4(c, fFL, "first and last usable segment", out[fFL].undec, out[fFL].problem, fmt.Sprintf("on all %d sequences", models))
+	reportK4(c, fPrev, "nearest usable segment before i", out[fPrev].undec, out[fPrev].problem, fmt.Sprintf("on all %d sequences", models))
+	reportK4(c, fNext, "nearest usable segment after i", out[fNext].undec, out[fNext].problem, fmt.Sprintf("on all %d sequences", models))
 }
